@@ -38,10 +38,19 @@ import pandas as pd
 from vtlengine import run
 from vtlengine.Exceptions import VTLEngineException
 S = {"datasets": [{"name": n, "DataStructure": [{"name": "Id_1", "type": "Integer", "role": "Identifier", "nullable": False}, {"name": "Me_1", "type": "Number", "role": "Measure", "nullable": True}]} for n in ("DS_1", "DS_2")]}
-def one(values1, values2, script):
+def one(values1, values2, script, csv=False):
+    import tempfile, shutil, pathlib
+    tmp = None
     try:
-        r = run(script=script, data_structures=S, datapoints={"DS_1": pd.DataFrame({"Id_1": list(range(len(values1))), "Me_1": pd.Series(values1, dtype="object")}),
-                                                                "DS_2": pd.DataFrame({"Id_1": list(range(len(values2))), "Me_1": pd.Series(values2, dtype="object")})}, return_only_persistent=False)
+        dps = {"DS_1": pd.DataFrame({"Id_1": list(range(len(values1))), "Me_1": pd.Series(values1, dtype="object")}),
+               "DS_2": pd.DataFrame({"Id_1": list(range(len(values2))), "Me_1": pd.Series(values2, dtype="object")})}
+        if csv:
+            tmp = tempfile.mkdtemp(prefix="c30_", dir="/var/tmp")
+            for k in list(dps):
+                p = pathlib.Path(tmp) / (k + ".csv")
+                p.write_text("Id_1,Me_1\n" + "".join("%%d,%%s\n" %% (i, v) for i, v in enumerate(values1 if k == "DS_1" else values2)))
+                dps[k] = p
+        r = run(script=script, data_structures=S, datapoints=dps, return_only_persistent=False)
         out = {}
         for k, v in r.items():
             if hasattr(v, "data"):
@@ -51,13 +60,16 @@ def one(values1, values2, script):
         return {"outcome": "vtl", "code": e.args[1] if len(e.args) > 1 else None, "msg": str(e)[:200]}
     except Exception as e:
         return {"outcome": "raw", "type": type(e).__name__, "msg": str(e)[:200]}
+    finally:
+        if tmp:
+            shutil.rmtree(tmp, ignore_errors=True)
 out = []
 for job in json.load(sys.stdin):
     for k in (%(scale)r, %(width)r):
         os.environ.pop(k, None)
     for k, v in job["env"].items():
         os.environ[k] = v
-    out.append(one(job["v1"], job["v2"], job["script"]))
+    out.append(one(job["v1"], job["v2"], job["script"], job.get("csv", False)))
 print("RESULT" + json.dumps(out))
 '''
 
@@ -143,7 +155,16 @@ def jobs_for(scale, width):
     w, s = eff if eff else (28, 10)
     vals, beyond = values_for(max(w, s), s)
     rot = vals[1:] + vals[:1]
-    return [dict(env=env, v1=vals, v2=[], script="R <- DS_1;"), dict(env=env, v1=vals, v2=rot, script="P <- DS_1 + DS_2; D <- DS_1 - DS_2;"), dict(env=env, v1=[beyond], v2=[], script="R <- DS_1;")], vals, beyond
+    jobs = [dict(env=env, v1=vals, v2=[], script="R <- DS_1;"), dict(env=env, v1=vals, v2=rot, script="P <- DS_1 + DS_2; D <- DS_1 - DS_2;"), dict(env=env, v1=[beyond], v2=[], script="R <- DS_1;")]
+    # values that need ALL configured digits: their difference is small and exactly representable, so a loss of digits on load is visible
+    intd = max(w, s) - s
+    if exp == "accept" and w >= s and intd >= 1:
+        hi = "1234567890123456789012345678901234567890"[:intd]
+        frac = "1234567891234567"[:s]
+        a, b = [hi + "." + frac, hi + "." + "0" * s], [hi + "." + "0" * s, hi + "." + frac]
+        for csv in (False, True):
+            jobs.append(dict(env=env, v1=a, v2=b, script="D <- DS_1 - DS_2;", csv=csv))
+    return jobs, vals, beyond
 
 
 def work_fresh(settings):
@@ -157,6 +178,21 @@ def work_fresh(settings):
         boundary = any(v in (-1, 5, 6, 15, 16, 38, 39) for v in (scale, width) if v is not None)
         part.case("fresh:%s:%s" % (scale, width), True, sample=case if len(part.samples) < 2 else None, labels=["fresh", "expected=" + exp] + (["boundary"] if boundary else []))
         check_setting(part, scale, width, res[0], res[1], res[2], "fresh", case)
+        _, eff = expected(scale, width)
+        for r, form in zip(res[3:], ("string DataFrame", "CSV file")):
+            s_ = eff[1]
+            want = decimal.Decimal("0." + "1234567891234567"[:s_])
+            if r["outcome"] == "raw":
+                part.fail("raw:%s:full_precision_values" % r["type"], dict(case, form=form), r["msg"])
+            elif r["outcome"] == "ok":
+                got = dict((a, b) for a, b in r["results"]["D"])
+                for i, sign in ((0, 1), (1, -1)):
+                    g = got.get(i)
+                    if g is None or abs(float(g) - float(sign * want)) > 1e-15:
+                        part.fail("full_precision_difference_not_exact:%s" % form.split()[0].lower(), dict(case, form=form, values=jobs[3]["v1"]), "difference of two values using all %d digits from a %s: %s, exact decimal %s" % (eff[0], form, g, sign * want))
+                        break
+            else:
+                part.hist["full_precision_values_rejected:%s" % r.get("code")] += 1
     return part
 
 
@@ -176,7 +212,7 @@ def work_sequences(seed, n):
         jobs, meta = [], []
         for scale, width in steps:
             j, vals, beyond = jobs_for(scale, width)
-            jobs += j; meta.append((scale, width, vals, beyond))
+            jobs += j[:3]; meta.append((scale, width, vals, beyond))
         res = run_jobs(jobs)
         part.case(core.fingerprint(steps), any(expected(a, b)[0] == "reject" for a, b in steps[:-1]), sample=dict(mode="sequence", steps=steps) if len(part.samples) < 2 else None, labels=["sequence", "len=%d" % len(steps)])
         for i, (scale, width, vals, beyond) in enumerate(meta):
